@@ -12,6 +12,7 @@ ROOT = os.path.dirname(os.path.dirname(os.path.abspath(__file__)))
 REPO = os.environ.get("VERIF_REPO", "/repo")
 PY = os.environ.get("VERIF_PYTHON", "/venv/bin/python")
 NPROC = int(os.environ.get("VERIF_NPROC", "14"))
+OUT = os.environ.get("VERIF_OUT") or None  # where evidence/ and replays/ go (default: /verif); used when trying seeded changes
 
 
 def jdump(o):
@@ -115,7 +116,7 @@ class Ctx:
         h = hashlib.sha1(jdump(ident).encode()).hexdigest()[:12]
         if any(v["hash"] == h for v in self.violations):
             return True
-        d = os.path.join(ROOT, "replays", self.pid)
+        d = os.path.join(OUT or ROOT, "replays", self.pid)
         path = os.path.join(d, h + ".json")
         if len(self.violations) < 25:
             os.makedirs(d, exist_ok=True)
@@ -151,8 +152,8 @@ class Ctx:
         ev = {"property_id": self.pid, "tier": self.tier, "seed": int(self.seed), "level": level,
               "coverage": cov, "assumptions": self.assumptions, "wall_s": round(time.time() - self.t0, 2),
               "violations": len(self.violations)}
-        os.makedirs(os.path.join(ROOT, "evidence"), exist_ok=True)
-        with open(os.path.join(ROOT, "evidence", self.pid + ".json"), "w") as fh:
+        os.makedirs(os.path.join(OUT or ROOT, "evidence"), exist_ok=True)
+        with open(os.path.join(OUT or ROOT, "evidence", self.pid + ".json"), "w") as fh:
             fh.write(json.dumps(ev, indent=1, default=_jd))
         if self.violations:
             import collections
